@@ -148,7 +148,7 @@ impl ListCase {
 }
 
 fn adversarial(d: &mut Dice) -> Vec<(Option<String>, String)> {
-    let sets: [&[&str]; 13] = [
+    let sets: [&[&str]; 16] = [
         &["a < b", "c > ::d"],
         &["a < b", "c >> d"],
         &["|a, b| a | b", "c"],
@@ -162,6 +162,10 @@ fn adversarial(d: &mut Dice) -> Vec<(Option<String>, String)> {
         &["<A as T<B, C>>::X", "f::<A, B>()"],
         &["x as usize < y", "z > w"],
         &["|x| -> M<K, V> { y }", "z"],
+        // several speculative `<` scans inside one argument before a real qualified path
+        &["0 < x && x < <C as L<A, B>>::MAX", "y"],
+        &["a << b < <C as L<A, B>>::MAX", "y"],
+        &["a < b", "c < d && e < <C as L<A, B>>::f(g, h)"],
     ];
     sets[d.pick(sets.len())].iter().map(|s| (None, s.to_string())).collect()
 }
@@ -244,6 +248,37 @@ impl Parse for DmArg {
         };
         Ok(DmArg { alias, expr: input.parse()? })
     }
+}
+
+/// the frozen splitter's view of a list (same alias convention as `DmArg`)
+struct FrozenArg {
+    alias: Option<syn::Ident>,
+    expr: crate::frozen_parsing::Expr,
+}
+impl Parse for FrozenArg {
+    fn parse(input: ParseStream) -> syn::Result<Self> {
+        let alias = if input.peek(syn::Ident) && input.peek2(Token![=]) && !input.peek2(Token![==]) {
+            let i: syn::Ident = input.parse()?;
+            let _: Token![=] = input.parse()?;
+            Some(i)
+        } else {
+            None
+        };
+        Ok(FrozenArg { alias, expr: input.parse()? })
+    }
+}
+
+/// Does the tree's splitter treat `text` exactly as the frozen copy (the recorded behaviour) does?
+fn same_as_recorded_behaviour(text: &str) -> bool {
+    let Ok(ts) = text.parse::<TokenStream>() else { return false };
+    let norm = |v: &Vec<String>| v.iter().map(|s| s.replace('\u{200d}', "")).collect::<Vec<_>>().join(" ");
+    let a = dm::guarded(|| Punctuated::<DmArg, Token![,]>::parse_terminated.parse2(ts.clone()))
+        .ok()
+        .map(|r| r.map(|v| v.iter().map(|a| (a.alias.as_ref().map(|i| i.to_string()), norm(&tok::flat_vec(&quote::ToTokens::to_token_stream(&a.expr))), a.expr.ident().is_some())).collect::<Vec<_>>()).map_err(|_| ()));
+    let b = dm::guarded(|| Punctuated::<FrozenArg, Token![,]>::parse_terminated.parse2(ts.clone()))
+        .ok()
+        .map(|r| r.map(|v| v.iter().map(|a| (a.alias.as_ref().map(|i| i.to_string()), norm(&tok::flat_vec(&quote::ToTokens::to_token_stream(&a.expr))), a.expr.ident().is_some())).collect::<Vec<_>>()).map_err(|_| ()));
+    a.is_some() && a == b
 }
 
 fn is_single_ident(e: &syn::Expr) -> bool {
@@ -468,6 +503,10 @@ fn sig_for(what: &str, text: &str, _expected: &str, _observed: &str) -> Option<S
         Some((_, r)) => r.trim_end_matches('`'),
         None => text,
     };
+    // a recorded finding is the recorded behaviour: the tree's splitter must do exactly what the frozen copy does
+    if !same_as_recorded_behaviour(text) {
+        return None;
+    }
     let ts = text.parse::<TokenStream>().ok()?;
     let truth = Punctuated::<TruthArg, Token![,]>::parse_terminated.parse2(ts).ok()?;
     let rerender = |f: &mut dyn FnMut(&mut syn::Expr)| -> String {
